@@ -24,6 +24,7 @@ import (
 	"github.com/magisterquis/curlrevshell/internal/iobroker"
 	"github.com/magisterquis/curlrevshell/lib/opshell"
 	"github.com/magisterquis/curlrevshell/verifx/ev"
+	"github.com/magisterquis/curlrevshell/verifx/hworld"
 )
 
 type slowLog struct {
@@ -58,7 +59,7 @@ func c11SlowLogStress(r *ev.Result, rounds int) {
 		for _, how := range []string{"cancel-stream", "shutdown", "eof"} {
 			ich := make(chan string, 4)
 			och := make(chan opshell.CLine, 1024)
-			b, err := iobroker.New(ich, och)
+			b, err := hworld.NewBroker(ich, och)
 			if nil != err {
 				ev.Broken("%s", err)
 			}
